@@ -520,6 +520,8 @@ func isEmpty(ft FieldT, v FieldV) bool {
 type oracle struct {
 	p   *dict.Parser
 	app uint32
+	// fromField, when set, collects the expected AVPs that are the ready-made AVPs of AVP-typed fields
+	fromField map[*gen.AVP]bool
 }
 
 func (o *oracle) entry(ft FieldT) (*dict.AVP, error) {
@@ -570,6 +572,9 @@ func (o *oracle) expect(fields []FieldT, vals []FieldV) ([]*gen.AVP, error) {
 				out = append(out, &gen.AVP{Code: d.Code, Flags: dictFlags(d), Vendor: d.VendorID, V: v.Vals[k]})
 			case KAVP:
 				out = append(out, v.AVPs[k])
+				if o.fromField != nil {
+					o.fromField[v.AVPs[k]] = true
+				}
 			case KStruct:
 				sub, err := o.expect(ft.Sub, v.Elems[k])
 				if err != nil {
